@@ -1,4 +1,236 @@
-//! C10 part B — connection level (filled in once the connection machinery exists)
-use crate::report::{Opts, Report};
+//! C10 part B — connection level: the handler that reads the payload receives exactly the bytes
+//! sent, in order, for every fragmentation and every reader pace.
+//!
+//! One connection, a stream of 1..4 PUBLISH packets (sizes around the chunk / varint / buffer
+//! boundaries) followed by a PINGREQ, cut into reads in several ways; each publish handler reads
+//! its payload eagerly, chunk by chunk, lazily (one read per controller step) or not at all.
+use serde_json::json;
 
-pub fn run_part(_opts: &Opts, _rep: &Report) {}
+use crate::app::{App, Ev, GateKind, Outcome, ProtoAnswer, ProtoPlan, PubPlan, ReadMode};
+use crate::conn::{self, ConnCfg, Role};
+use crate::explore::{Run, exec};
+use crate::pool::{self, After, Rng};
+use crate::refcodec::{self, Packet as R};
+use crate::report::{Opts, Report, Tier, Violation};
+
+#[derive(Debug, Clone)]
+pub struct Case {
+    pub role: Role,
+    pub min_chunk: u32,
+    pub max_buffer: usize,
+    /// (qos, payload length, read mode)
+    pub msgs: Vec<(u8, usize, ReadMode)>,
+    /// 0 whole, 1 byte at a time, 2 random cuts, 3 cuts around packet boundaries
+    pub frag: u8,
+    pub seed: u64,
+}
+
+pub struct Outc {
+    pub violations: Vec<(String, String)>,
+    pub log: Vec<String>,
+    pub sig: u64,
+    pub payload_bytes: usize,
+    pub reads: usize,
+    pub writes: usize,
+}
+
+const SIZES: [usize; 22] = [0, 1, 2, 3, 4, 5, 7, 8, 9, 31, 32, 33, 63, 64, 65, 120, 127, 128, 200, 1023, 1024, 1025];
+const BIG: [usize; 6] = [16383, 16384, 32767, 32768, 32769, 70000];
+
+pub fn gen_case(rng: &mut Rng, quick: bool) -> Case {
+    let role = *rng.pick(&Role::ALL);
+    let n = 1 + rng.usize(if quick { 3 } else { 4 });
+    let msgs = (0..n)
+        .map(|_| {
+            let len = if rng.chance(1, 10) { *rng.pick(&BIG) } else if rng.chance(1, 3) { rng.usize(300) } else { *rng.pick(&SIZES) };
+            let mode = match rng.below(8) {
+                0 | 1 | 2 => ReadMode::Eager,
+                3 | 4 => ReadMode::Chunks,
+                5 | 6 => ReadMode::Lazy,
+                _ => ReadMode::Abandon,
+            };
+            (rng.below(3) as u8, len, mode)
+        })
+        .collect();
+    Case { role, min_chunk: *rng.pick(&[0u32, 1, 4, 64, 1024, 32768]), max_buffer: *rng.pick(&[8usize, 64, 1024, 32 * 1024]), msgs, frag: rng.below(4) as u8, seed: rng.next() }
+}
+
+pub async fn run_case(case: &Case) -> Outc {
+    let app = App::new("c10b");
+    let mut cfg = ConnCfg::new(case.role);
+    cfg.max_qos = 2;
+    cfg.min_chunk_size = case.min_chunk;
+    cfg.max_payload_buffer = case.max_buffer;
+    cfg.max_receive = 16;
+    cfg.max_receive_size = 0;
+    let mut rng = Rng::for_case(case.seed, "c10b", 0);
+    let mut c = conn::start(&cfg, app.clone()).await;
+    let ver = case.role.ver();
+    let mut o = Outc { violations: vec![], log: vec![], sig: 0, payload_bytes: 0, reads: 0, writes: 0 };
+    // the stream
+    let mut stream: Vec<u8> = Vec::new();
+    let mut boundaries: Vec<usize> = Vec::new();
+    let mut sent: Vec<Vec<u8>> = Vec::new();
+    for (i, (qos, len, mode)) in case.msgs.iter().enumerate() {
+        app.pub_plans.borrow_mut().push_back(PubPlan { read: mode.clone(), gated: false, outcome: Outcome::Ok });
+        let payload: Vec<u8> = (0..*len).map(|k| (k as u8).wrapping_mul(31).wrapping_add(i as u8 * 7 + 1)).collect();
+        let p = R::Publish { dup: false, qos: *qos, retain: false, topic: format!("f/{i}"), pid: (*qos > 0).then_some(10 + i as u16), props: vec![], payload: payload.clone() };
+        let b = refcodec::encode(ver, &p).unwrap();
+        boundaries.push(stream.len());
+        boundaries.push(stream.len() + b.len() - payload.len()); // end of the header
+        stream.extend(b);
+        sent.push(payload);
+    }
+    boundaries.push(stream.len());
+    if case.role.is_server() {
+        app.proto_plans.borrow_mut().push_back(ProtoPlan { gated: false, answer: ProtoAnswer::Ack });
+        stream.extend(refcodec::encode(ver, &R::PingReq).unwrap());
+    } else {
+        // clients: a final QoS 1 publish as the probe
+        app.pub_plans.borrow_mut().push_back(PubPlan::default());
+        stream.extend(refcodec::encode(ver, &R::Publish { dup: false, qos: 1, retain: false, topic: "probe".into(), pid: Some(999), props: vec![], payload: vec![0xEE] }).unwrap());
+    }
+    // cut positions
+    let mut cuts: Vec<usize> = match case.frag {
+        0 => vec![],
+        1 if stream.len() <= 600 => (1..stream.len()).collect(),
+        3 => {
+            let mut v = Vec::new();
+            for b in &boundaries {
+                for d in [-2i64, -1, 0, 1, 2] {
+                    let p = *b as i64 + d;
+                    if p > 0 && (p as usize) < stream.len() {
+                        v.push(p as usize);
+                    }
+                }
+            }
+            v
+        }
+        _ => {
+            let k = 1 + rng.usize(12);
+            (0..k).map(|_| 1 + rng.usize(stream.len() - 1)).collect()
+        }
+    };
+    cuts.sort();
+    cuts.dedup();
+    cuts.push(stream.len());
+    app.log(Ev::Note(format!("stream {}B in {} writes", stream.len(), cuts.len())));
+    // deliver; between writes let lazy readers advance by a random number of reads
+    let mut start = 0;
+    for cut in cuts {
+        c.peer.write_quiet(&stream[start..cut]);
+        start = cut;
+        o.writes += 1;
+        c.settle().await;
+        for _ in 0..rng.usize(3) {
+            let gates: Vec<(GateKind, u32)> = app.pending_gates().into_iter().filter(|g| g.0 == GateKind::PubRead).collect();
+            if gates.is_empty() {
+                break;
+            }
+            app.open_gate(gates[rng.usize(gates.len())], Outcome::Ok);
+            c.settle().await;
+        }
+    }
+    // let the lazy readers finish
+    for _ in 0..200_000 {
+        let gates: Vec<(GateKind, u32)> = app.pending_gates().into_iter().filter(|g| g.0 == GateKind::PubRead).collect();
+        if gates.is_empty() {
+            break;
+        }
+        app.open_gate(gates[rng.usize(gates.len())], Outcome::Ok);
+        c.settle().await;
+    }
+    c.settle().await;
+    // ------------------------------------------------------------------ oracle
+    let log = app.snapshot();
+    let what = format!("{case:?}");
+    let enters: Vec<(u32, String, u32)> = log.iter().filter_map(|(_, e)| if let Ev::PubEnter { call, topic, size, .. } = e { Some((*call, topic.clone(), *size)) } else { None }).collect();
+    for (i, (_, len, mode)) in case.msgs.iter().enumerate() {
+        let Some((call, _, _)) = enters.iter().find(|(_, t, _)| *t == format!("f/{i}")) else {
+            o.violations.push(("publish never reached its handler".into(), format!("message {i} — {what}")));
+            continue;
+        };
+        if enters.iter().filter(|(_, t, _)| *t == format!("f/{i}")).count() != 1 {
+            o.violations.push(("publish announced more than once".into(), format!("message {i} — {what}")));
+        }
+        if *mode == ReadMode::Abandon {
+            continue;
+        }
+        let got = log.iter().find_map(|(_, e)| if let Ev::PubPayload { call: c2, bytes } = e { (c2 == call).then_some(bytes) } else { None });
+        let reads: Vec<&Result<usize, String>> = log.iter().filter_map(|(_, e)| if let Ev::PubRead { call: c2, res } = e { (c2 == call).then_some(res) } else { None }).collect();
+        o.reads += reads.len();
+        match got {
+            None => o.violations.push(("handler did not receive the complete payload".into(), format!("message {i} ({len} bytes), reads {reads:?} — {what}"))),
+            Some(b) => {
+                o.payload_bytes += b.len();
+                if *b != sent[i] {
+                    let first_diff = b.iter().zip(sent[i].iter()).position(|(x, y)| x != y);
+                    o.violations.push(("handler received different payload bytes than were sent".into(), format!("message {i}: sent {} bytes, received {} bytes, first difference at {first_diff:?} — {what}", sent[i].len(), b.len())));
+                }
+            }
+        }
+    }
+    // nothing leaked into the following packets: the probe was answered, nothing ended the connection
+    let wire = app.wire();
+    let probe_ok = if case.role.is_server() { wire.iter().any(|(_, p)| matches!(p, R::PingResp)) } else { wire.iter().any(|(_, p)| matches!(p, R::PubAck { pid: 999, .. })) };
+    if !probe_ok || !app.stops().is_empty() {
+        o.violations.push(("packet following the publishes was not processed (payload bytes leaked into the next packet, or the connection ended)".into(), format!("stops {:?}, wrote {:?} — {what}", app.stops(), wire.iter().map(|(_, p)| crate::map::brief(p)).collect::<Vec<_>>())));
+    }
+    o.sig = app.trace_signature() ^ pool::hash_str(&format!("{:?}{}", case.msgs, case.frag));
+    o.log = app.render(40);
+    c.finish().await;
+    o
+}
+
+pub fn run_part(opts: &Opts, rep: &Report) {
+    let quick = opts.tier == Tier::Quick;
+    let n: u64 = if quick { 12_000 } else { 300_000 };
+    pool::par_for(n, None, |i| {
+        let mut rng = Rng::for_case(opts.seed, "c10-conn", i);
+        let case = gen_case(&mut rng, quick);
+        let r = exec(run_case(&case));
+        rep.eval();
+        let rj = json!({"kind": "conn", "seed": opts.seed, "index": i, "quick": quick});
+        match &r {
+            Run::Done(o, _) => {
+                rep.distinct(o.sig);
+                rep.count("conn_cases", 1);
+                rep.count("conn_payload_bytes_compared", o.payload_bytes as u64);
+                rep.count("conn_handler_reads", o.reads as u64);
+                rep.max("conn_max_writes_per_stream", o.writes as u64);
+                if i % 4001 == 0 {
+                    rep.sample(14, || json!({"conn_case": format!("{case:?}"), "log": o.log}));
+                }
+                for (class, what) in &o.violations {
+                    rep.violation(Violation { signature: format!("conn/{}: {}", case.role.name(), pool::abstract_numbers(class)), what: format!("{class} — {what}"), replay: json!({"case": rj, "log": o.log}) });
+                }
+            }
+            Run::Panic(p, tail) => rep.violation(Violation { signature: format!("conn/{}: {}", case.role.name(), p.signature()), what: format!("panic: {} at {} — {case:?}", p.msg, p.location), replay: json!({"case": rj, "log": tail}) }),
+            Run::Livelock(tail) => rep.violation(Violation { signature: format!("conn/{}: live-lock", case.role.name()), what: format!("never quiescent — {case:?}"), replay: json!({"case": rj, "log": tail}) }),
+            Run::Watchdog => rep.inconclusive(format!("watchdog {case:?}")),
+        }
+        r.after()
+    });
+    rep.require("conn_payload_bytes_compared", 100_000);
+}
+
+pub fn replay_conn(v: &serde_json::Value) -> Option<i32> {
+    let case = &v["replay"]["case"];
+    if case["kind"].as_str() != Some("conn") {
+        return None;
+    }
+    let mut rng = Rng::for_case(case["seed"].as_u64()?, "c10-conn", case["index"].as_u64()?);
+    let c = gen_case(&mut rng, case["quick"].as_bool().unwrap_or(true));
+    println!("replaying {c:?}");
+    Some(match exec(run_case(&c)) {
+        Run::Done(o, _) => {
+            for l in &o.log {
+                println!("{l}");
+            }
+            println!("violations: {:?}", o.violations);
+            if o.violations.is_empty() { 0 } else { 1 }
+        }
+        Run::Watchdog => 2,
+        _ => 1,
+    })
+}
